@@ -170,6 +170,7 @@ func TestVerifC19(t *testing.T) {
 			srv.StartTLS()
 			ca := pem.EncodeToMemory(&pem.Block{Type: "CERTIFICATE", Bytes: srv.Certificate().Raw})
 			os.WriteFile(filepath.Join(f[1], "ca.pem"), ca, 0644)
+			os.WriteFile(filepath.Join(f[1], "pid"), []byte(strconv.Itoa(os.Getpid())), 0644)
 			os.WriteFile(filepath.Join(f[1], "addr.tmp"), []byte(srv.URL), 0644)
 			os.Rename(filepath.Join(f[1], "addr.tmp"), filepath.Join(f[1], "addr"))
 			deadline := time.Now().Add(time.Duration(maxSecs) * time.Second)
